@@ -152,16 +152,15 @@ ExteriorBBox(z) == IF z.neg THEN InfBox ELSE z.ext     \* get_exterior_bbox
 
 (* soundness by definition: quantified over every pair of represented regions *)
 SoundByDefinition(op, za, zb, zr, U) ==
-  \A Ra \in SUBSET U, Rb \in SUBSET U :
-     (Represents(za, Ra, U) /\ Represents(zb, Rb, U)) =>
+  \A Ra \in {S \in SUBSET U : Represents(za, S, U)}, Rb \in {S \in SUBSET U : Represents(zb, S, U)} :
         Represents(zr, IF op = "and" THEN Ra \cap Rb ELSE Ra \cup Rb, U)
 
 (* a zone together with the point sets of its boxes (computed once per zone) *)
-View(z, U) == LET pi == Pts(z.int, U)
-                  px == Pts(z.ext, U) IN
-              [z |-> z, pi |-> pi, px |-> px,
-               ki |-> IF z.neg THEN U \ px ELSE pi,
-               ko |-> IF z.neg THEN pi ELSE U \ px]
+\* (TLC re-evaluates a LET definition on every use; a variable bound over a singleton is a value)
+One(S) == CHOOSE x \in S : TRUE
+View(z, U) == One({[z |-> z, pi |-> pi, px |-> px,
+                    ki |-> IF z.neg THEN U \ px ELSE pi,
+                    ko |-> IF z.neg THEN pi ELSE U \ px] : pi \in {Pts(z.int, U)}, px \in {Pts(z.ext, U)}})
 
 (* soundness, reduced: the table of BoundingZone.hh; as sets of violated clause names *)
 SoundnessViolationsV(op, a, b, r) ==
